@@ -23,6 +23,11 @@ PROPS = {
     "C07": {
         "class_prefixes": ["c07-", "harness-crash"],
         "subs": [
+            {"name": "lwin", "n_quick": 10, "n_thorough": 300, "oracle": False,
+             "rule": "the session window on the listener side under pipelining: a scripted peer writes header, open, begin (incoming-window W0), the attach of a "
+                     "receiving link and a flow carrying link credit and a NEW session window W1 before the listener's application has accepted session and "
+                     "link (or, as a control, only afterwards); the application then sends 1..9 pre-settled messages: every transfer written lies inside the "
+                     "window advertised last"},
             {"name": "c07", "n_quick": 3000, "n_thorough": 150000, "model": "coq/Session/Window.v",
              "rule": "random histories of outgoing transfers / session flows (truthful, unset or bogus next-incoming-id; "
                      "windows 0..5000 and 2^32-1) / incoming transfers, initial ids over-weighted within 200 of 0, 2^31 and 2^32; "
@@ -265,6 +270,11 @@ PROPS = {
     "C12": {
         "class_prefixes": ["c12-", "harness-crash", "c15-wedged", "c15-silent-failure"],
         "subs": [
+            {"name": "lill", "n_quick": 0, "n_thorough": 0, "oracle": False,
+             "rule": "the listener side of the illegal-frame clause: a real listener opened by a scripted peer, then one frame that no state of a listener "
+                     "connection without sessions allows (end / flow / transfer / disposition / detach on a channel without session, a begin naming a "
+                     "remote channel, a second open), followed by nothing / a close / EOF: the listener answers with a close that carries an error, and "
+                     "writes nothing after its close"},
             {"name": "c12", "n_quick": 1200, "n_thorough": 20000, "model": "coq/Conn/Lifecycle.v",
              "rule": "scripts of 1..6 (thorough 1..9) events after a mostly sensible prefix (open;ph;po 60%, others 40%) over local "
                      "open/close/close_with_error/drop and peer header/garbage header/open/close/close+error/begin (no, known, unknown "
